@@ -193,6 +193,7 @@ theorem le_runObj {rec rec' : Rec} (h : RecLe rec rec') (op : Op) (env : Env) (i
     · split
       · exact le_refl _
       · refine le_bind (le_refl _) (fun _ => le_bind (le_forSV (fun k e => ?_) _) (fun _ => le_refl _))
+        unfold objEntry
         split
         · exact le_refl _
         · exact le_addSeg _ (h _ _ _ _)
@@ -201,6 +202,7 @@ theorem le_runObj {rec rec' : Rec} (h : RecLe rec rec') (op : Op) (env : Env) (i
     · split
       · exact le_refl _
       · refine le_bind (le_refl _) (fun _ => le_bind (le_forSV (fun k e => ?_) _) (fun _ => le_refl _))
+        unfold objEntry
         split
         · exact le_refl _
         · exact le_addSeg _ (h _ _ _ _)
